@@ -41,6 +41,19 @@ theorem C18_sum_float_any_sort (ls : List (List Seg)) (es : List Edge) (h : 2 * 
   rw [sumEdgesF_eq _ es hb]
   exact C18_sum_any_sort ls es hp hs
 
+/-- When no two edges share an instant, ANY time-sorted arrangement the unstable sort may produce is the one
+the model computes, so `Sum` in float32 is a function of its arguments there, rounding included: the float
+rendering `sumF` (what the correspondence check compares rounding cases with) is what every sort yields. -/
+theorem C18_sum_float_order_determined (ls : List (List Seg)) (es : List Edge)
+    (hp : es.Perm (rawEdges ls)) (hs : SortedT es)
+    (hd : (rawEdges ls).Pairwise (fun x y => x.time ≠ y.time)) :
+    sumEdgesF (dropRule (anyInfinite ls)) es = sumF ls := by
+  have hd' : es.Pairwise (fun x y => x.time ≠ y.time) :=
+    hp.symm.pairwise hd (fun {x y} h => fun e => h e.symm)
+  have : es = calcCuts ls :=
+    sorted_perm_unique es (calcCuts ls) (hp.trans (sortEdges_perm _).symm) hs (sortEdges_sorted _) hd'
+  rw [this]; rfl
+
 /-- `SumMagnitude` in float32 is the exact total while the absolute magnitudes total less than 2^24. -/
 theorem C18_sumMagnitude_float (segs : List Seg) (h : magAbs segs < 16777216) :
     sumMagnitudeF segs = sumMagnitude segs :=
@@ -56,6 +69,11 @@ theorem C18_float_rounds_witness :
     sumEdgesF (fun _ => false) [⟨0, 16777216⟩, ⟨0, 1⟩, ⟨0, 1⟩] = [⟨16777216, none⟩] ∧
     sumEdgesF (fun _ => false) [⟨0, 1⟩, ⟨0, 1⟩, ⟨0, 16777216⟩] = [⟨16777218, none⟩] := by
   refine ⟨by decide, by decide, by decide, by decide, by decide⟩
+
+example : (rawEdges [[⟨0, some 3⟩, ⟨16777216, some 2⟩], [⟨0, some 1⟩, ⟨3, some 1⟩]]).Pairwise (fun x y => x.time ≠ y.time) := by
+  decide
+example : sumF [[⟨0, some 3⟩, ⟨16777216, some 2⟩], [⟨0, some 4⟩, ⟨3, some 3⟩]]
+    = [⟨0, some 3⟩, ⟨16777216, some 1⟩, ⟨16777220, some 1⟩, ⟨4, some 2⟩] := by decide
 
 /-! Non-vacuity: the bound holds for the magnitudes the property speaks about, with room to spare. -/
 example : 2 * magAbsAll [[⟨2, some 2⟩, ⟨-3, some 1⟩, ⟨-1, none⟩], [⟨-1, some 4⟩]] < 16777216 := by decide
